@@ -16,7 +16,7 @@ class Res:
 
 # ------------------------------------------------------------------------------------------------ projections
 def status_of(r):
-    for k in ('panic', 'abort', 'timeout', 'docchanged', 'err', 'badjson'):
+    for k in ('panic', 'abort', 'timeout', 'skipped', 'docchanged', 'err', 'badjson'):
         if k in r: return k
     return 'ok' if 'ok' in r else 'unknown'
 
@@ -128,6 +128,8 @@ def judge_eval(ctx, case, r, m):
     out = {'corr': False, 'verdict': 'ok', 'kf': [], 'nontrivial': False}
     if 'badjson' in r or 'badjson' in m:
         out['verdict'] = 'skip:badjson'; return out
+    if 'skipped' in r or 'skipped' in m:
+        out['verdict'] = 'skip:not_run_after_repeated_timeouts'; return out
     flags = m.get('flags') or {}
     if flags.get('regex_unsupported'):
         out['verdict'] = 'skip:regex_unsupported'; return out
@@ -227,6 +229,7 @@ def corpus_lines(name, prop=None):
 
 # ------------------------------------------------------------------------------------------------ parse
 def judge_parse(ctx, s, r, m):
+    if 'skipped' in r or 'skipped' in m: return {'corr': False, 'verdict': 'ok'}
     if ctx.prop in ('C06', 'C07', 'C08'):
         scope = {'C06': m['rfc'] == 'valid', 'C07': m['rfc'] == 'invalid', 'C08': True}[ctx.prop]
         out = {'corr': scope and status_class(r) != status_class(m['impl']), 'verdict': 'ok'}
@@ -251,6 +254,7 @@ def parse_suite(ctx, name, lines, res):
     for s, rl, ml in zip(lines, real, model):
         r = json.loads(rl); m = json.loads(ml)
         res.stats['cases'] += 1; info['cases'] += 1
+        if 'skipped' in m or 'rfc' not in m: res.stats['skip:model_not_run'] += 1; continue
         res.stats['rfc_' + m['rfc']] += 1
         res.stats['real_' + status_of(r)] += 1
         j = judge_parse(ctx, s, r, m)
@@ -355,6 +359,21 @@ def hist_suite(ctx, name, lines, res):
                 k = tuple(op)
                 if k in seen and seen[k] != o: why = f'same (query,document) {op} gave different results within one history'
                 seen.setdefault(k, o)
+        if not why:
+            # history independence: every result must equal the result of the same evaluation in a FRESH process
+            distinct = sorted(set(tuple(op) for op in c['ops']))
+            flines = [json.dumps({'queries': c['queries'], 'docs': c['docs'], 'ops': [list(op)], 'threads': 1}, ensure_ascii=False) for op in distinct]
+            from concurrent.futures import ThreadPoolExecutor
+            with ThreadPoolExecutor(NCPU) as ex:
+                fresh = list(ex.map(lambda l: run_lines(HBIN, 'hist', [l], timeout=20)[0], flines))
+            ref = {}
+            for op, fr in zip(distinct, fresh):
+                fj = json.loads(fr)
+                if 'seq' in fj: ref[op] = fj['seq'][0]
+            res.stats['fresh_process_evaluations'] += len(distinct)
+            for op, o in zip(c['ops'], r['seq']):
+                if tuple(op) in ref and ref[tuple(op)] != o:
+                    why = f'evaluation {op} (query {c["queries"][op[0]]!r}) gives a different result after this history than in a fresh process'; break
         if why:
             res.violations.append({'suite': name, 'mode': 'hist', 'case': c, 'real': r, 'model': m, 'why': why}); info['violations'] += 1; continue
         if norm(r.get('seq')) != norm(m.get('seq')): res.stats['info_seq_differs_from_model'] += 1   # informational: the function itself is C01's business
@@ -501,7 +520,7 @@ def run(ctx, round_no=0):
     elif p == 'C12':
         res.rule = ('histories: seeded sequences of evaluations interleaving several queries and documents, each also by pre-parsed query and from N threads '
                     'sharing one Arc; plus the three entry points compared position by position on random cases')
-        hist_suite(ctx, 'histories', g('gen_hist.py', seed, 150 * S), res)
+        hist_suite(ctx, 'histories', g('gen_hist.py', seed, 60 * S), res)
         eval_suite(ctx, 'entry-points', g('gen_eval.py', seed, 8000 * S), res)
     elif p == 'C13':
         res.rule = ('metamorphic: abstract queries rendered into 6 random spellings each (shorthand/quotes, .* vs [*], optional parentheses, number spellings, '
